@@ -83,7 +83,7 @@ Section C10.
 
   (** singleton guard *)
   Theorem singleton_not_subscribed_twice (w : wld) k :
-    is_singleton k = true -> existsb (kind_eqb k) (subscribed_kinds w) = true ->
+    is_singleton k = true -> existsb (is_instance k) (subscribed_kinds w) = true ->
     new_observer I k w = (w, inr EValidation).
   Proof.
     intros Hs He. unfold new_observer, new_observer_gen, bind, get. cbn. rewrite Hs, He. reflexivity.
@@ -97,11 +97,11 @@ Section C10.
 
   Lemma find_sub_sound os k al ss i :
     find_sub os k al ss = Some i ->
-    In i ss /\ cond_ok al i = true /\ exists o, nth_error os i = Some o /\ kind_eqb k (kind_of o) = true.
+    In i ss /\ cond_ok al i = true /\ exists o, nth_error os i = Some o /\ is_instance k (kind_of o) = true.
   Proof.
     induction ss as [|s t IH]; simpl; [discriminate|].
     destruct (nth_error os s) as [o|] eqn:E.
-    - destruct (kind_eqb k (kind_of o) && cond_ok al s) eqn:Ek.
+    - destruct (is_instance k (kind_of o) && cond_ok al s) eqn:Ek.
       + intros H; inversion H; subst. apply andb_true_iff in Ek. destruct Ek. repeat split; eauto.
       + intros H. destruct (IH H) as (? & ? & ?). auto.
     - intros H. destruct (IH H) as (? & ? & ?). auto.
@@ -109,11 +109,11 @@ Section C10.
 
   Lemma find_sub_complete os k al ss :
     find_sub os k al ss = None ->
-    forall i o, In i ss -> nth_error os i = Some o -> kind_eqb k (kind_of o) && cond_ok al i = false.
+    forall i o, In i ss -> nth_error os i = Some o -> is_instance k (kind_of o) && cond_ok al i = false.
   Proof.
     induction ss as [|s t IH]; simpl; intros H i o Hin Ho; [contradiction|].
     destruct (nth_error os s) as [o'|] eqn:E.
-    - destruct (kind_eqb k (kind_of o') && cond_ok al s) eqn:Ek; [discriminate|].
+    - destruct (is_instance k (kind_of o') && cond_ok al s) eqn:Ek; [discriminate|].
       destruct Hin as [->|Hin]; [rewrite E in Ho; inversion Ho; subst; exact Ek|eauto].
     - destruct Hin as [->|Hin]; [congruence|eauto].
   Qed.
